@@ -193,4 +193,269 @@ def loadState {σ : Type} (cd : Codec σ) (fs : Files σ) (listing : List Nat) :
 def instanceState (id timeout : Nat) (s : Session) : InstanceState :=
   { id := id, timeout := timeout, step := s.step, state := s }
 
+/-! ### jsonpickle: object graphs and `py/id` back-references (wave 2)
+
+`jsonpickle.dumps` walks the object graph depth first; every dict / list object gets the next number
+(root = 0) when it is first met, and a later occurrence of the SAME object is written as
+`{"py/id": n}`.  `jsonpickle.loads` numbers the objects it creates in the same order and resolves
+`{"py/id": n}` to the n-th object.  `run_step` logs the settings object it was given
+(`settings_log[step] = settings`, no copy), `run-steps` passes the one object of the request body to every
+step, `copy.deepcopy` in `_get_instance_state` keeps the sharing — so the written state contains
+back-references as soon as one settings object is logged for several steps. -/
+
+/-- a scalar: string or number (dictionary keys, atoms) -/
+inductive Sc where
+  | str (s : String)
+  | num (n : Int)
+deriving DecidableEq, Repr
+
+/-- object identity (two components so that disjoint families of objects need no arithmetic) -/
+abbrev Addr := Nat × Nat
+
+mutual
+/-- a Python value as the pickler sees it -/
+inductive PV where
+  | atom (s : Sc)                                   -- None, bool, number, string: written by value
+  | obj (a : Addr) (isList : Bool) (kids : Kids)    -- dict / list object with identity `a`
+  | fresh (isList : Bool) (kids : Kids)             -- dict / list object that nothing else refers to
+deriving DecidableEq, Repr
+inductive Kids where
+  | nil
+  | cons (k : Sc) (v : PV) (rest : Kids)            -- list elements carry the key `num 0`
+deriving DecidableEq, Repr
+end
+
+mutual
+/-- the JSON text (as a tree); `ref n` is `{"py/id": n}` -/
+inductive J where
+  | atom (s : Sc)
+  | obj (isList : Bool) (kids : JKids)
+  | ref (n : Nat)
+deriving DecidableEq, Repr
+inductive JKids where
+  | nil
+  | cons (k : Sc) (v : J) (rest : JKids)
+deriving DecidableEq, Repr
+end
+
+/-- pickler state: next object number, numbers of the identified objects met so far -/
+structure ES where
+  next : Nat
+  tab : List (Addr × Nat)
+deriving DecidableEq, Repr
+
+def lk (a : Addr) : List (Addr × Nat) → Option Nat
+  | [] => none
+  | (b, n) :: r => if b = a then some n else lk a r
+
+mutual
+def enc : PV → ES → J × ES
+  | .atom s, es => (.atom s, es)
+  | .fresh l kids, es =>
+    let r := encKids kids { next := es.next + 1, tab := es.tab }
+    (.obj l r.1, r.2)
+  | .obj a l kids, es =>
+    match lk a es.tab with
+    | some n => (.ref n, es)
+    | none =>
+      let r := encKids kids { next := es.next + 1, tab := (a, es.next) :: es.tab }
+      (.obj l r.1, r.2)
+def encKids : Kids → ES → JKids × ES
+  | .nil, es => (.nil, es)
+  | .cons k v rest, es =>
+    let r1 := enc v es
+    let r2 := encKids rest r1.2
+    (.cons k r1.1 r2.1, r2.2)
+end
+
+/-- unpickler state: next object number, the objects completed so far -/
+structure DS where
+  next : Nat
+  done : List (Nat × J)
+deriving DecidableEq, Repr
+
+def lkD (n : Nat) : List (Nat × J) → Option J
+  | [] => none
+  | (m, v) :: r => if m = n then some v else lkD n r
+
+/-- what a reader that does not know `py/id` makes of a back-reference: a dictionary with that one key -/
+def refAsDict (n : Nat) : J := .obj false (.cons (.str "py/id") (.atom (.num n)) .nil)
+
+mutual
+/-- `resolve = true`: `jsonpickle.loads`; `resolve = false`: a plain JSON reader (`json.loads`).
+The result is the value as Python's `==` sees it (a tree without references). -/
+def dec (resolve : Bool) : J → DS → Option (J × DS)
+  | .atom s, ds => some (.atom s, ds)
+  | .ref n, ds =>
+    if resolve then (lkD n ds.done).map fun v => (v, ds) else some (refAsDict n, ds)
+  | .obj l kids, ds =>
+    match decKids resolve kids { next := ds.next + 1, done := ds.done } with
+    | none => none
+    | some r => some (.obj l r.1, { next := r.2.next, done := (ds.next, .obj l r.1) :: r.2.done })
+def decKids (resolve : Bool) : JKids → DS → Option (JKids × DS)
+  | .nil, ds => some (.nil, ds)
+  | .cons k v rest, ds =>
+    match dec resolve v ds with
+    | none => none
+    | some r1 =>
+      match decKids resolve rest r1.2 with
+      | none => none
+      | some r2 => some (.cons k r1.1 r2.1, r2.2)
+end
+
+mutual
+/-- the value without identities (what `==` compares) -/
+def unfold : PV → J
+  | .atom s => .atom s
+  | .obj _ l kids => .obj l (unfoldKids kids)
+  | .fresh l kids => .obj l (unfoldKids kids)
+def unfoldKids : Kids → JKids
+  | .nil => .nil
+  | .cons k v rest => .cons k (unfold v) (unfoldKids rest)
+end
+
+def encode (t : PV) : J := (enc t { next := 0, tab := [] }).1
+def decode (resolve : Bool) (j : J) : Option J := (dec resolve j { next := 0, done := [] }).map (·.1)
+
+mutual
+/-- no back-reference occurs in the text -/
+def noRef : J → Bool
+  | .atom _ => true
+  | .ref _ => false
+  | .obj _ kids => noRefKids kids
+def noRefKids : JKids → Bool
+  | .nil => true
+  | .cons _ v rest => noRef v && noRefKids rest
+end
+
+/-! ### the settings part of a stored session as an object graph
+
+`ident i` is the identity of the settings object logged by the i-th step (any aliasing pattern a client
+can produce: `run-steps` gives `numberSteps` consecutive steps the same object, `bptk.run_step(settings=s)`
+in a loop any pattern).  Aliased entries necessarily have the same content at save time, so the identity
+used is the first index with the same `ident` AND the same content (`canon`) — consistent for every
+`ident` whatsoever.  Values that are lists (`points` tables) are objects of their own. -/
+
+/-- the hex of the JSON text of a value starts with `[` or `{` -/
+def compound (v : Val) : Bool := v.startsWith "5b" || v.startsWith "7b"
+
+def valPV (v : Val) : PV :=
+  if compound v then .fresh true (.cons (.num 0) (.atom (.str v)) .nil) else .atom (.str v)
+
+def rowKids : Row → Kids
+  | [] => .nil
+  | (p, v) :: r => .cons (.num p) (valPV v) (rowKids r)
+
+/-- first index with the same identity and the same content -/
+def canon {α : Type} [BEq α] (ident : Nat → Nat) (items : List α) (i : Nat) : Nat :=
+  match (List.range (i + 1)).find? fun j => ident j == ident i && items[j]? == items[i]? with
+  | some j => j
+  | none => i
+
+def logKids (ident : Nat → Nat) (rows : List Row) : Nat → Log → Kids
+  | _, [] => .nil
+  | i, (t, row) :: rest =>
+    .cons (.num t) (.obj (0, canon ident rows i) false (rowKids row)) (logKids ident rows (i + 1) rest)
+
+/-- `session_state["settings_log"]` in plain mode -/
+def logPV (ident : Nat → Nat) (log : Log) : PV := .fresh false (logKids ident (log.map (·.2)) 0 log)
+
+/-- the value of a column entry: a compound value is THE value object of the settings object it was read from -/
+def cvalPV (c j : Nat) (v : Val) : PV :=
+  if compound v then .obj (c + 1, j) true (.cons (.num 0) (.atom (.str v)) .nil) else .atom (.str v)
+
+/-- the entries `[index, value]` of one column (`c` = position of the column, `k` = position of the entry) -/
+def colKids (identAt : Nat → Nat) (c : Nat) (vals : List Val) : Nat → List (Nat × Val) → Kids
+  | _, [] => .nil
+  | k, (i, v) :: rest =>
+    .cons (.num 0) (.fresh true (.cons (.num 0) (.atom (.num i)) (.cons (.num 0) (cvalPV c (canon identAt vals k) v) .nil)))
+      (colKids identAt c vals (k + 1) rest)
+
+def identAt (ident : Nat → Nat) (col : List (Nat × Val)) (k : Nat) : Nat := ident ((col[k]?.map (·.1)).getD 0)
+
+def colsKids (ident : Nat → Nat) : Nat → List (Path × List (Nat × Val)) → Kids
+  | _, [] => .nil
+  | c, (p, col) :: rest =>
+    .cons (.num p) (.fresh true (colKids (identAt ident col) c (col.map (·.2)) 0 col)) (colsKids ident (c + 1) rest)
+
+/-- the `values` of a compressed settings log -/
+def colsPV (ident : Nat → Nat) (cols : List (Path × List (Nat × Val))) : PV := .fresh false (colsKids ident 0 cols)
+
+/-! reading the trees back -/
+
+def valOfJ : J → Option Val
+  | .atom (.str v) => some v
+  | .obj true (.cons (.num 0) (.atom (.str v)) .nil) => some v
+  | _ => none
+
+def rowOfJ : JKids → Option Row
+  | .nil => some []
+  | .cons (.num p) v rest =>
+    match valOfJ v, rowOfJ rest with
+    | some x, some r => some ((p.toNat, x) :: r)
+    | _, _ => none
+  | .cons (.str _) _ _ => none          -- e.g. the key "py/id": not a settings dictionary
+
+def logOfJK : JKids → Option Log
+  | .nil => some []
+  | .cons k v rest =>
+    match k, v, logOfJK rest with
+    | .num t, .obj false kids, some l => (rowOfJ kids).map fun row => (t, row) :: l
+    | _, _, _ => none
+
+def logOfTree : J → Option Log
+  | .obj false kids => logOfJK kids
+  | _ => none
+
+def entryOfJ : J → Option (Nat × Val)
+  | .obj true (.cons _ (.atom (.num i)) (.cons _ v .nil)) => (valOfJ v).map fun x => (i.toNat, x)
+  | _ => none
+
+def colOfJK : JKids → Option (List (Nat × Val))
+  | .nil => some []
+  | .cons _ e rest =>
+    match entryOfJ e, colOfJK rest with
+    | some x, some r => some (x :: r)
+    | _, _ => none
+
+def colsOfJK : JKids → Option (List (Path × List (Nat × Val)))
+  | .nil => some []
+  | .cons k v rest =>
+    match k, v, colsOfJK rest with
+    | .num p, .obj true kids, some l => (colOfJK kids).map fun col => (p.toNat, col) :: l
+    | _, _, _ => none
+
+def colsOfTree : J → Option (List (Path × List (Nat × Val)))
+  | .obj false kids => colsOfJK kids
+  | _ => none
+
+/-! ### the FileAdapter with the concrete pickler for the settings part
+
+The file content is the envelope with the settings part left blank (carried abstractly, as before) plus the
+JSON tree of the settings part (plain mode: `settings_log`; compressed mode: the `values` columns) as
+written by the pickler.  `resolve` = whether the adapter's reader resolves `py/id` (mechanism fact). -/
+
+structure Cfg where
+  decoderResolvesRefs : Bool
+deriving DecidableEq, Repr
+
+def Cfg.good (c : Cfg) : Bool := c.decoderResolvesRefs
+
+def settingsJ (ident : Nat → Nat) : Stored → J
+  | .plain s => encode (logPV ident s.settingsLog)
+  | .compressed _ _ cs _ => encode (colsPV ident cs.cols)
+
+def blankS : Stored → Stored
+  | .plain s => .plain { s with settingsLog := [] }
+  | .compressed sp st cs cr => .compressed sp st { cs with cols := [] } cr
+
+def fillS : Stored → J → Option Stored
+  | .plain s, j => (logOfTree j).map fun l => .plain { s with settingsLog := l }
+  | .compressed sp st cs cr, j => (colsOfTree j).map fun c => .compressed sp st { cs with cols := c } cr
+
+def pickleCodec (c : Cfg) (ident : Nat → Nat) : Codec (Envelope × J) :=
+  { enc := fun e => ({ e with stored := blankS e.stored }, settingsJ ident e.stored)
+    dec := fun f => (decode c.decoderResolvesRefs f.2).bind fun t =>
+      (fillS f.1.stored t).map fun s => { f.1 with stored := s } }
+
 end Bptk.C19
